@@ -51,6 +51,9 @@ func (v *VMap) Valid(src interface{}) error {
 	}
 
 	tv := RemoveValuePtr(reflect.ValueOf(src))
+	if !tv.IsValid() { // 类型化的 nil 指针
+		return errors.New("src is nil")
+	}
 	switch tv.Kind() {
 	case reflect.Array, reflect.Slice:
 		l := tv.Len()
@@ -64,13 +67,13 @@ func (v *VMap) Valid(src interface{}) error {
 
 // validate 验证执行体
 func (v *VMap) validate(prefix string, tv reflect.Value) *VMap {
-	if tv.Type().Key().Kind() != reflect.String {
-		v.errBuf.WriteString(GetJoinFieldErr("", prefix, "map key must string"))
+	if tv.Kind() != reflect.Map {
+		v.errBuf.WriteString(GetJoinFieldErr("", prefix, "val must map"))
 		return v
 	}
 
-	if tv.Kind() != reflect.Map {
-		v.errBuf.WriteString(GetJoinFieldErr("", prefix, "val must map"))
+	if tv.Type().Key().Kind() != reflect.String {
+		v.errBuf.WriteString(GetJoinFieldErr("", prefix, "map key must string"))
 		return v
 	}
 
